@@ -66,6 +66,8 @@ def families():
         "nested-class-methods": [(S.Outer.Inner.imeth, {"self": S.Outer.Inner, "x": int}, int, None), (S.Outer.Inner.ismeth, {"x": str}, str, None), (S.Outer.Inner.Deep.dmeth, {"self": S.Outer.Inner.Deep, "x": int}, NT, None), (S.Outer.ometh, {"self": S.Outer, "x": float}, float, None)],
         "typed-dict-subset-in-tuples": [(S.mfunc, {"x": Tu[mk_atd({"a": int, "b": str}, {})]}, int, None), (S.mfunc, {"x": Tu[mk_atd({"a": int}, {})]}, int, None), (S.wrapped.__wrapped__, {"x": D[int, mk_atd({"a": int, "b": str}, {})]}, int, None), (S.wrapped.__wrapped__, {"x": D[int, mk_atd({"a": int}, {})]}, int, None), (S.wrapped.__wrapped__, {"x": D[int, mk_atd({"a": int, "b": str, "c": int}, {})]}, int, None)],
         "differing-argument-name-sets": [(S.Base.meth, {"self": S.Base, "x": int}, int, None), (S.Base.meth, {"self": S.Base}, int, None), (S.Base.meth, {"self": S.Derived, "x": str}, str, None), (S.mfunc, {}, int, None), (S.mfunc, {"x": float}, int, None)],
+        # calls with identical argument types that differ only in what they returned / yielded
+        "same-arguments-different-results": [(S.mfunc, {"x": int}, int, None), (S.mfunc, {"x": int}, str, None), (S.mfunc, {"x": int}, NT, None), (S.genfunc, {"n": int}, None, int), (S.genfunc, {"n": int}, None, str)],
         # a type first used by a None-defaulted parameter of one module (Optional[...]), then by required / otherwise
         # defaulted parameters of another module
         "optional-parameter-then-plain-parameter-two-modules": [(S.mfunc, {"x": int}, int, None), (S2.req, {"p": int}, int, None), (S2.deflt, {"q": int}, NT, None), (S2.req, {"p": S.Base}, S.Base, None), (S.mfunc, {"x": S.Base}, NT, None)],
